@@ -139,6 +139,20 @@ def fieldwise(crate, path, S, mname):
                     if callee == path:
                         continue
                     return False
+    if mname in ("eq", "cmp", "partial_cmp"):
+        # element-wise comparison through zip() stops at the shorter operand: it needs a separate comparison of the lengths
+        from .relax import _all_terms
+        zips = [ev for ev in an.events if ev["k"] == "call" and ev["key"] == "core::iter::traits::iterator::Iterator::zip"]
+        if zips:
+            def len_eq(t):
+                if isinstance(t, tuple) and t:
+                    if t[0] == "bin" and t[1] in ("Eq", "Ne") and all(x[0] == "len" and x[1][0] == "at" for x in (t[2], t[3])) \
+                            and {t[2][1][1][:2], t[3][1][1][:2]} == {"A1", "A2"}:
+                        return True
+                    return any(len_eq(x) for x in t if isinstance(x, tuple))
+                return False
+            if not any(len_eq(t) for t in _all_terms(an)):
+                return False
     return True
 
 
